@@ -751,20 +751,20 @@ int main(int argc, char** argv) {
     subs.push_back(s);
   }
   {
-    Sub s; s.name = "c03.scaling"; s.property = "C03"; s.instances = (int)g_all.size(); s.n_quick = 30; s.n_thorough = 1500; s.gen = gen_c03; s.run = c03_scaling; s.instance_name = rname(g_all);
+    Sub s; s.name = "c03.scaling"; s.property = "C03"; s.instances = (int)g_all.size(); s.n_quick = 150; s.n_thorough = 3000; s.gen = gen_c03; s.run = c03_scaling; s.instance_name = rname(g_all);
     s.rule = "enumerated: every operator, compound assignment, constructor (1,2,3,4,6,9 arguments) and member relation x 3 numeric types; generated: operand components (both signs; half the cases all-positive) and an independent rescaling "
              "of the seven base units by 4^k (k in [-4,4]; float [-1,1]); oracle: f(s(A)a, s(B)b, ...) = s(C) f(a, b, ...) with s from the DECLARED dimension sets, exact for power-of-two factors (2 ulp allowance for pow/acos); "
              "non-trivial: some scale factor != 1 and result != 0";
     subs.push_back(s);
   }
   {
-    Sub s; s.name = "c04.operators"; s.property = "C04"; s.instances = (int)g_ops.size(); s.n_quick = 50; s.n_thorough = 3000; s.gen = gen_c04; s.run = c04_operator; s.instance_name = rname(g_ops);
+    Sub s; s.name = "c04.operators"; s.property = "C04"; s.instances = (int)g_ops.size(); s.n_quick = 200; s.n_thorough = 5000; s.gen = gen_c04; s.run = c04_operator; s.instance_name = rname(g_ops);
     s.rule = "every operator and compound-assignment instance x 3 numeric types; operands of both signs with unrelated mantissas; oracle: component-wise IEEE operation of the same numeric type on the stored values in written order, "
              "bit equality (contractions: textbook formula within 2 ulp of sum |terms|); compound assignment equals its pure operator bit for bit; non-trivial: operands differ, none is 0 or 1";
     subs.push_back(s);
   }
   {
-    Sub s; s.name = "c04.twin"; s.property = "C04"; s.instances = (int)g_twins.size(); s.n_quick = 50; s.n_thorough = 3000; s.run = c04_twin;
+    Sub s; s.name = "c04.twin"; s.property = "C04"; s.instances = (int)g_twins.size(); s.n_quick = 200; s.n_thorough = 5000; s.run = c04_twin;
     s.gen = [](int inst) { const Twin& t = g_twins[(size_t)inst]; const VfRelation* C = g_rel[t.nt][(size_t)t.ctor]; const int w = t.nt == 0 ? 12 : 60;
       return rc::gen::map(gen_reals(total_comps(C), t.nt, -w, w, kNeg), [=](const std::vector<LD>& v) { Case c; c.i = {inst}; c.r = v; return c; }); };
     s.instance_name = [](int inst) { const Twin& t = g_twins[(size_t)inst]; return std::string(g_rel[t.nt][(size_t)t.ctor]->name) + "==" + g_rel[t.nt][(size_t)t.op]->name; };
@@ -772,14 +772,14 @@ int main(int argc, char** argv) {
     subs.push_back(s);
   }
   {
-    Sub s; s.name = "c04.history"; s.property = "C04"; s.instances = (int)g_cmpall.size(); s.n_quick = 100; s.n_thorough = 5000; s.gen = gen_c04_history; s.run = c04_history;
+    Sub s; s.name = "c04.history"; s.property = "C04"; s.instances = (int)g_cmpall.size(); s.n_quick = 300; s.n_thorough = 6000; s.gen = gen_c04_history; s.run = c04_history;
     s.instance_name = [](int inst) { return std::string(g_cmp[g_cmpall[(size_t)inst].nt][(size_t)g_cmpall[(size_t)inst].idx]->name) + "/" + ntinfo(g_cmpall[(size_t)inst].nt).name; };
     s.rule = "histories of 1..24 compound assignments (+= q, -= q, *= n, /= n, any interleaving) on every quantity type that has all four: compared after every step, bit for bit, with a plain array updated by the IEEE operator and "
              "with the chain of pure operators x = x op y; non-trivial: at least one additive and one multiplicative step";
     subs.push_back(s);
   }
   {
-    Sub s; s.name = "c04.std"; s.property = "C04"; s.instances = (int)g_stdall.size(); s.n_quick = 100; s.n_thorough = 5000; s.run = c04_std;
+    Sub s; s.name = "c04.std"; s.property = "C04"; s.instances = (int)g_stdall.size(); s.n_quick = 500; s.n_thorough = 10000; s.run = c04_std;
     s.gen = [](int inst) { const Ref rf = g_stdall[(size_t)inst];
       return rc::gen::map(rc::gen::tuple(gen_real(rf.nt, -10, 10, kNeg | kZero), gen_real(rf.nt, -3, 3, kNeg | kZero), irange(0, 3)), [=](const std::tuple<LD, LD, int>& t) { Case c; c.i = {rf.nt, rf.idx, std::get<2>(t)}; c.r = {std::get<0>(t), std::get<1>(t)}; return c; }); };
     s.instance_name = [](int inst) { const VfStdFn* f = g_std[g_stdall[(size_t)inst].nt][(size_t)g_stdall[(size_t)inst].idx]; return std::string(f->qname) + "." + f->fname; };
@@ -787,7 +787,7 @@ int main(int argc, char** argv) {
     subs.push_back(s);
   }
   {
-    Sub s; s.name = "c05.inverse"; s.property = "C05"; s.instances = (int)g_pairs.size(); s.n_quick = 40; s.n_thorough = 2500; s.gen = gen_c05; s.run = c05_pair;
+    Sub s; s.name = "c05.inverse"; s.property = "C05"; s.instances = (int)g_pairs.size(); s.n_quick = 150; s.n_thorough = 4000; s.gen = gen_c05; s.run = c05_pair;
     s.instance_name = [](int inst) { const Pair& p = g_pairs[(size_t)inst]; return std::string(g_rel[p.nt][(size_t)p.r1]->name) + " -> " + g_rel[p.nt][(size_t)p.r2]->name + "/" + ntinfo(p.nt).name; };
     s.rule = "pairs derived from the declared signatures: constructor/member C(..A..) with A(..C..) over the same remaining arguments (1 to 4 arguments), operator pairs by algebra (a+b<->c-b, a*b<->c/b, a/b<->c*b, and the forms solving "
              "for b), one-argument pairs of equal shape and the planar embedding 2-D -> 3-D -> 2-D (bit-exact); positive finite scalar operands over many binades; oracle: A(C(a,b..),b..) = a within 4(1+kappa) ulp with kappa = k2 + kc(1+k1) the measured "
@@ -798,32 +798,32 @@ int main(int argc, char** argv) {
     return [&L, zero_ok, extra_i, with_scale](int inst) { const Ref rf = L[(size_t)inst]; const VfRelation* R = g_rel[rf.nt][(size_t)rf.idx]; const int n = R->args[0].ncomp, nt = rf.nt;
       return rc::gen::map(rc::gen::tuple(gen_vector(nt, n, zero_ok), irange(-30, 30), gen_real(nt, -3, 3, 0)), [=](const std::tuple<std::vector<LD>, int, LD>& t) { Case c; c.i = {nt, rf.idx}; if (extra_i) c.i.push_back(std::get<1>(t)); c.r = std::get<0>(t); if (with_scale) c.r.push_back(std::get<2>(t)); return c; }); }; };
   {
-    Sub s; s.name = "c10.magnitude"; s.property = "C10"; s.instances = (int)g_mag.size(); s.n_quick = 300; s.n_thorough = 20000; s.gen = vgen(g_mag, true, 0, false); s.run = c10_magnitude; s.instance_name = rname(g_mag);
+    Sub s; s.name = "c10.magnitude"; s.property = "C10"; s.instances = (int)g_mag.size(); s.n_quick = 2000; s.n_thorough = 40000; s.gen = vgen(g_mag, true, 0, false); s.run = c10_magnitude; s.instance_name = rname(g_mag);
     s.rule = "Magnitude() of every vector quantity type (2-D and 3-D) x 3 numeric types: result type is the scalar quantity with the same declared dimensions, value within 3 ulp of the Euclidean norm in __float128; vectors = random "
              "orientation x length over the whole range in which the squared length neither overflows nor underflows (guard band min_normal 2^(p+2)), axis-aligned, two-axis, near-degenerate, zero; non-trivial: >= 2 non-zero components";
     subs.push_back(s);
   }
   {
-    Sub s; s.name = "c10.components"; s.property = "C10"; s.instances = (int)g_comp.size(); s.n_quick = 30; s.n_thorough = 1000; s.run = c10_component; s.instance_name = rname(g_comp);
+    Sub s; s.name = "c10.components"; s.property = "C10"; s.instances = (int)g_comp.size(); s.n_quick = 100; s.n_thorough = 2000; s.run = c10_component; s.instance_name = rname(g_comp);
     s.gen = [](int inst) { const Ref rf = g_comp[(size_t)inst]; const VfRelation* R = g_rel[rf.nt][(size_t)rf.idx]; return rc::gen::map(gen_reals(R->args[0].ncomp, rf.nt, -30, 30, kNeg | kZero), [=](const std::vector<LD>& v) { Case c; c.i = {rf.nt, rf.idx}; c.r = v; return c; }); };
     s.rule = "typed component accessors x(), y(), z(), xx() ... of every vector / tensor quantity: bit-equal to the stored component of that name, typed as the scalar quantity of the same dimensions; non-trivial: components pairwise distinct";
     subs.push_back(s);
   }
   {
-    Sub s; s.name = "c10.direction"; s.property = "C10"; s.instances = (int)g_dirrel.size(); s.n_quick = 300; s.n_thorough = 20000; s.gen = vgen(g_dirrel, true, 1, true); s.run = c10_direction; s.instance_name = rname(g_dirrel);
+    Sub s; s.name = "c10.direction"; s.property = "C10"; s.instances = (int)g_dirrel.size(); s.n_quick = 2000; s.n_thorough = 40000; s.gen = vgen(g_dirrel, true, 1, true); s.run = c10_direction; s.instance_name = rname(g_dirrel);
     s.rule = "Direction / PlanarDirection built from every vector quantity (constructor and q.Direction() member): length 1 within 4 ulp, each component within 4 ulp of v_i/|v| (parallel, same way), bit-identical after scaling the input by 2^k, "
              "within 6 ulp after scaling by an arbitrary positive factor, zero vector -> exactly (+0,+0,+0); non-trivial: >= 2 non-zero components";
     subs.push_back(s);
   }
   {
-    Sub s; s.name = "c10.rebuild"; s.property = "C10"; s.instances = (int)g_rebuild.size(); s.n_quick = 200; s.n_thorough = 10000; s.run = c10_rebuild;
+    Sub s; s.name = "c10.rebuild"; s.property = "C10"; s.instances = (int)g_rebuild.size(); s.n_quick = 1000; s.n_thorough = 20000; s.run = c10_rebuild;
     s.gen = [](int inst) { const Rebuild& P = g_rebuild[(size_t)inst]; const int n = g_rel[P.nt][(size_t)P.mag]->args[0].ncomp; return rc::gen::map(gen_vector(P.nt, n, true), [=](const std::vector<LD>& v) { Case c; c.i = {inst}; c.r = v; return c; }); };
     s.instance_name = [](int inst) { const Rebuild& P = g_rebuild[(size_t)inst]; return std::string(g_rel[P.nt][(size_t)P.build]->name) + "/" + ntinfo(P.nt).name; };
     s.rule = "q.Magnitude() x q.Direction() through Q(scalar, direction), scalar * direction and direction * scalar reconstructs q within 4 ulp of |q| per component, for all 17 vector quantity types; non-trivial: >= 2 non-zero components";
     subs.push_back(s);
   }
   {
-    Sub s; s.name = "c11.quantity"; s.property = "C11"; s.instances = (int)g_angle.size(); s.n_quick = 400; s.n_thorough = 20000; s.run = c11_angle; s.instance_name = rname(g_angle);
+    Sub s; s.name = "c11.quantity"; s.property = "C11"; s.instances = (int)g_angle.size(); s.n_quick = 2000; s.n_thorough = 40000; s.run = c11_angle; s.instance_name = rname(g_angle);
     s.gen = [](int inst) { const Ref rf = g_angle[(size_t)inst]; const VfRelation* R = g_rel[rf.nt][(size_t)rf.idx]; const int n = R->args[0].ncomp, nt = rf.nt; const bool dir = R->args[0].kind == 2;
       return rc::gen::map(rc::gen::tuple(gen_angle_pair(nt, n, dir), irange(-40, 40), irange(-40, 40)), [=](const std::tuple<std::vector<LD>, int, int>& t) { Case c; c.i = {nt, rf.idx, std::get<1>(t), std::get<2>(t)}; c.r = std::get<0>(t); return c; }); };
     s.rule = "every quantity-level angle relation (Angle(A,B) constructors and a.Angle(b) members for the 17 vector quantity types, Direction and PlanarDirection) x 3 numeric types; pairs b = +-k a (k arbitrary and power of two), "
@@ -832,7 +832,7 @@ int main(int argc, char** argv) {
     subs.push_back(s);
   }
   {
-    Sub s; s.name = "c18.definitions"; s.property = "C18"; s.instances = (int)g_definst.size(); s.n_quick = 200; s.n_thorough = 20000; s.run = c18_def;
+    Sub s; s.name = "c18.definitions"; s.property = "C18"; s.instances = (int)g_definst.size(); s.n_quick = 2000; s.n_thorough = 40000; s.run = c18_def;
     s.gen = [](int inst) { const DefInst& I = g_definst[(size_t)inst]; const VfRelation* R = g_rel[I.nt][(size_t)I.rel]; const int n = total_comps(R), nt = I.nt; const int w = nt == 0 ? 10 : 30;
       return rc::gen::map(gen_reals(n, nt, -w, w, kNeg), [=](const std::vector<LD>& v) { Case c; c.i = {inst}; c.r = v; size_t p = 0; for (int a = 0; a < R->nargs; a++) for (int j = 0; j < R->args[a].ncomp; j++, p++) if (R->args[a].ncomp == 1) c.r[p] = std::fabs(c.r[p]); return c; }); };
     s.instance_name = [](int inst) { const DefInst& I = g_definst[(size_t)inst]; return std::string(g_defs[(size_t)I.def].name) + "/" + ntinfo(I.nt).name; };
